@@ -27,15 +27,18 @@ STATUS OF THIS ROUND (be careful what is claimed):
       the dispatch table, the message-type bytes, the allow-list of nondeterminism sites, the
       metrics timers and the list of map ranges (each entry annotated after reading the Go source).
 
-  PENDING (later round, needs the shared store model `CV.Store`):
-    * `theorem replicas_agree_store : … run (storeTable) envs₁ s log = run (storeTable) envs₂ s log`,
-      i.e. discharging `EnvIndependentOn StoreWF storeTable` for the concrete handlers, one
-      obligation per command family (`FamilyObligation` below says exactly what has to be shown
-      and `envIndependentOn_of_families` assembles the families);
-    * `rejected_leaves_state` (a command answered with an error leaves the replicated state
-      unchanged) — it is a statement about the concrete handlers.
-  Until then the concrete handlers are tied to the property only by the replica-diff harness
-  (three real FSMs, two processes, different clocks / map seeds / GOMAXPROCS) and by the facts.
+  ROUND 2 — DISCHARGED for the command families of the shared store model `CV.Store` (register,
+  deregister, KVS, session, tombstone reap, prepared-query rows, txn), section 4 of this file:
+    * `apply_env_independent`, `replicas_agree_store`, `replay_repl_agree` — replicated tables and
+      all results are independent of the server-local lock-delay map (and so of the clock that
+      feeds it), by a function-by-function non-interference proof (`CV/Proofs/StoreEnv.lean`);
+    * `store_family_obligation` + `replicas_agree_consul_store` — these seven handlers meet their
+      `FamilyObligation` and are plugged into the dispatch-level theorem; the obligation of the
+      other 29 message types stays an explicit hypothesis (`hrest`);
+    * `rejected_leaves_state`, `refused_leaves_state` — an error (a refused CAS) commits nothing.
+  STILL OPEN: the handlers outside `CV.Store` (ACL, config entries, intentions, CA, peering, …):
+  tied to the property only by the replica-diff harness (three real FSMs, two processes, different
+  clocks / map seeds / GOMAXPROCS / bind addresses) and by the facts.
 -/
 import CV.Fsm
 import CV.FsmFacts
